@@ -29,6 +29,8 @@ type TransferGen struct {
 	classes map[string][]string
 	ids     []string
 	mtIds   map[string][]string // chain|class -> ids
+	led     *Ledger
+	script  int // 0 = random only, 1 = forged-class scenario first, 2 = round trips first
 }
 
 func (g *TransferGen) stat(k string) { g.stats[k]++ }
@@ -186,6 +188,7 @@ func (g *TransferGen) setup() {
 	}
 	g.classes = map[string][]string{}
 	g.mtIds = map[string][]string{}
+	g.led = newLedger()
 }
 
 // class ids the NFT module accepts, weighted to path-shaped ones
@@ -224,15 +227,13 @@ func (g *TransferGen) randId() string {
 
 func (g *TransferGen) randRecipient(ci int) string {
 	w := g.w
-	switch g.r.Intn(14) {
+	// (the transfer modules' own accounts are not used as receivers here: a token delivered to
+	// the escrow account is indistinguishable from an escrowed one for the ownership oracle)
+	switch g.r.Intn(12) {
 	case 0:
 		return "not-an-address"
 	case 1:
 		return " "
-	case 2:
-		return w.addrOfModule("NFT")
-	case 3:
-		return w.addrOfModule("MT")
 	}
 	return w.Acct(ci, g.r.Intn(3)).String()
 }
@@ -289,6 +290,7 @@ func (g *TransferGen) opIssueMint() {
 		}
 		out, res := g.w.MtMint(c, signer, class, id, amt, rcpt)
 		g.stat("mt.mint." + ErrClass(res.Codespace, res.Code))
+		g.mtAfterMint(c, class, out, amt, res)
 		if res.Code == 0 && id == "" {
 			g.mtIds[c.ChainName+"|"+class] = append(ids, out)
 		}
@@ -305,8 +307,18 @@ func (g *TransferGen) opIssueMint() {
 		return
 	}
 	class := cls[g.r.Intn(len(cls))]
-	res := g.w.NftMint(c, g.r.Intn(3), class, g.randId(), "uri", g.w.Acct(i, g.r.Intn(3)).String())
+	mintId := g.randId()
+	signer := g.r.Intn(3)
+	if d, err := c.App.NftKeeper.GetDenomInfo(c.GetContext(), class); err == nil && g.r.Chance(80) {
+		for j := 0; j < 3; j++ {
+			if g.w.Acct(i, j).String() == d.Creator {
+				signer = j
+			}
+		}
+	}
+	res := g.w.NftMint(c, signer, class, mintId, "uri", g.w.Acct(i, g.r.Intn(3)).String())
 	g.stat("nft.mint." + ErrClass(res.Codespace, res.Code))
+	g.nftAfterMint(c, class, mintId, res)
 }
 
 func (g *TransferGen) mtClasses(i int) []string {
@@ -405,6 +417,7 @@ func (g *TransferGen) opUserMove() {
 		} else {
 			res := g.w.MtBurn(c, signer, class, id, amt)
 			g.stat("mt.userburn." + ErrClass(res.Codespace, res.Code))
+			g.mtAfterBurn(c, class, id, amt, res)
 		}
 		return
 	}
@@ -414,6 +427,7 @@ func (g *TransferGen) opUserMove() {
 	} else {
 		res := g.w.NftBurn(c, signer, class, id)
 		g.stat("nft.userburn." + ErrClass(res.Codespace, res.Code))
+		g.nftAfterBurn(c, class, id, res)
 	}
 }
 
@@ -464,6 +478,9 @@ func (g *TransferGen) opTransfer() {
 	}
 	if g.r.Chance(3) {
 		dst = "unknownchain9"
+		if g.relay && g.r.Chance(70) {
+			relay = w.Names[1]
+		}
 	}
 	rcpt := g.randRecipient(j)
 	var p *packettypes.Packet
@@ -480,6 +497,12 @@ func (g *TransferGen) opTransfer() {
 	if res.Code != 0 && w.FullDump(c) != before {
 		w.hit("C09", "failed-transfer-changed-state")
 		w.hit("C19", "failed-transfer-changed-state")
+	}
+	senderAddr := w.Acct(i, signer).String()
+	if g.mt {
+		g.mtAfterTransfer(c, class, id, senderAddr, p)
+	} else {
+		g.nftAfterTransfer(c, class, id, senderAddr, p)
 	}
 	if p != nil {
 		tok := w.PayloadTok(p.Port, p.Data)
@@ -525,7 +548,7 @@ func (g *TransferGen) opRelay() {
 				return
 			}
 			ps := ProofSpec{Kind: "honest", Chain: prover, Height: h, Key: "commit", Src: p.SourceChain, Dst: p.DestinationChain, Seq: p.Sequence}
-			res := w.Recv(c, g.r.Intn(3), p, t.tok, ps, h)
+			res := g.recvWithOracles(c, g.r.Intn(3), p, t.tok, ps, h)
 			g.stat("relay.recv." + ErrClass(res.Codespace, res.Code))
 			if res.Code == 0 {
 				t.recvOn[hn] = true
@@ -566,7 +589,7 @@ func (g *TransferGen) opRelay() {
 				return
 			}
 			ps := ProofSpec{Kind: "honest", Chain: prover, Height: h, Key: "ack", Src: p.SourceChain, Dst: p.DestinationChain, Seq: p.Sequence}
-			res := w.Ack(c, g.r.Intn(3), p, t.tok, t.ack, ps, h)
+			res := g.ackWithOracles(c, g.r.Intn(3), p, t.tok, t.ack, ps, h, true)
 			g.stat("relay.ack." + ErrClass(res.Codespace, res.Code))
 			t.ackedOn[hn] = true
 			return
@@ -575,23 +598,35 @@ func (g *TransferGen) opRelay() {
 	// everything processed: replay something
 	if g.r.Chance(50) {
 		c := w.Chain(hops[len(hops)-1])
+		if c == nil {
+			return
+		}
 		prover := recvProver(c, p)
 		h := w.ClientLatest(c, prover)
 		ps := ProofSpec{Kind: "honest", Chain: prover, Height: h, Key: "commit", Src: p.SourceChain, Dst: p.DestinationChain, Seq: p.Sequence}
-		res := w.Recv(c, 0, p, t.tok, ps, h)
+		res := g.recvWithOracles(c, 0, p, t.tok, ps, h)
 		g.stat("replay.recv." + ErrClass(res.Codespace, res.Code))
 	} else {
 		c := w.Chain(p.SourceChain)
 		prover := ackProver(c, p)
 		h := w.ClientLatest(c, prover)
 		ps := ProofSpec{Kind: "honest", Chain: prover, Height: h, Key: "ack", Src: p.SourceChain, Dst: p.DestinationChain, Seq: p.Sequence}
-		res := w.Ack(c, 0, p, t.tok, t.ack, ps, h)
+		res := g.ackWithOracles(c, 0, p, t.tok, t.ack, ps, h, false)
 		g.stat("replay.ack." + ErrClass(res.Codespace, res.Code))
 	}
 }
 
 func (g *TransferGen) Run(nOps int) {
 	g.setup()
+	if !g.mt {
+		switch g.script {
+		case 1:
+			g.RunForge()
+		case 2:
+			g.RunRoundTrip()
+			g.RunRoundTrip()
+		}
+	}
 	for i := 0; i < nOps; i++ {
 		switch x := g.r.Intn(100); {
 		case x < 22:
@@ -609,4 +644,241 @@ func (g *TransferGen) Run(nOps int) {
 
 var _ = sdk.AccAddress{}
 
-func (g *TransferGen) tokenOracles() {}
+
+func (g *TransferGen) recvWithOracles(c *tibctesting.TestChain, signer int, p packettypes.Packet, tok string, ps ProofSpec, h uint64) *abci.ExecTxResult {
+	var nb map[pos]string
+	var mb mtBal
+	if g.mt {
+		mb = mtState(c)
+	} else {
+		nb = nftOwners(c)
+	}
+	res := g.w.Recv(c, signer, p, tok, ps, h)
+	if res.Code != 0 && p.RelayChain == c.ChainName && ps.Kind == "honest" && ErrClass(res.Codespace, res.Code) == "clientNotFound" &&
+		g.w.ClientLatest(c, p.SourceChain) != 0 {
+		// genuine packet, verified, but the relay chain does not know the destination
+		g.w.hit("C11", "relay-aborts-on-unknown-destination-instead-of-error-ack "+fkey(p))
+	}
+	if g.mt {
+		g.mtAfterRecv(c, p, res, mb)
+	} else {
+		g.nftAfterRecv(c, p, res, nb)
+	}
+	return res
+}
+
+func (g *TransferGen) ackWithOracles(c *tibctesting.TestChain, signer int, p packettypes.Packet, tok string, ack []byte, ps ProofSpec, h uint64, honest bool) *abci.ExecTxResult {
+	var nb map[pos]string
+	var mb mtBal
+	if g.mt {
+		mb = mtState(c)
+	} else {
+		nb = nftOwners(c)
+	}
+	res := g.w.Ack(c, signer, p, tok, ack, ps, h)
+	if g.mt {
+		g.mtAfterAck(c, p, ack, honest, res, mb)
+	} else {
+		g.nftAfterAck(c, p, ack, honest, res, nb)
+	}
+	return res
+}
+
+// deliver relays packet t honestly along its whole route and back (recv on every hop, ack on
+// every hop); returns false when some step was refused.
+func (g *TransferGen) deliver(t *tpkt) bool {
+	w := g.w
+	p := t.p
+	for _, hn := range route(p) {
+		c := w.Chain(hn)
+		if c == nil {
+			return false
+		}
+		prover := recvProver(c, p)
+		q := w.Chain(prover)
+		if q == nil || w.ClientLatest(c, prover) == 0 {
+			return false
+		}
+		h := w.Update(c, q)
+		ps := ProofSpec{Kind: "honest", Chain: prover, Height: h, Key: "commit", Src: p.SourceChain, Dst: p.DestinationChain, Seq: p.Sequence}
+		res := g.recvWithOracles(c, 0, p, t.tok, ps, h)
+		g.stat("script.recv." + ErrClass(res.Codespace, res.Code))
+		if res.Code != 0 {
+			return false
+		}
+		t.recvOn[hn] = true
+		if a := writtenAck(res); a != nil {
+			t.ack, t.ackOn = a, hn
+			break
+		}
+	}
+	if t.ack == nil {
+		return false
+	}
+	back := []string{}
+	if p.RelayChain != "" && t.ackOn != p.RelayChain {
+		back = append(back, p.RelayChain)
+	}
+	back = append(back, p.SourceChain)
+	ok := true
+	for _, hn := range back {
+		c := w.Chain(hn)
+		prover := ackProver(c, p)
+		q := w.Chain(prover)
+		if q == nil || w.ClientLatest(c, prover) == 0 {
+			return false
+		}
+		h := w.Update(c, q)
+		ps := ProofSpec{Kind: "honest", Chain: prover, Height: h, Key: "ack", Src: p.SourceChain, Dst: p.DestinationChain, Seq: p.Sequence}
+		res := g.ackWithOracles(c, 0, p, t.tok, t.ack, ps, h, true)
+		g.stat("script.ack." + ErrClass(res.Codespace, res.Code))
+		t.ackedOn[hn] = true
+		if res.Code != 0 {
+			ok = false
+		}
+	}
+	return ok && strings.HasPrefix(w.AckTok(t.ack), "ackok|")
+}
+
+func (g *TransferGen) track(p *packettypes.Packet, on string) *tpkt {
+	if p == nil {
+		return nil
+	}
+	t := &tpkt{p: *p, tok: g.w.PayloadTok(p.Port, p.Data), sentOn: on, recvOn: map[string]bool{}, ackedOn: map[string]bool{}}
+	g.pkts = append(g.pkts, t)
+	return t
+}
+
+// nftXfer = MsgNftTransfer + ledger bookkeeping
+func (g *TransferGen) nftXfer(i, signer int, class, id, rcpt, dst, relay string) *tpkt {
+	c := g.chain(i)
+	p, res := g.w.NftTransfer(c, signer, class, id, rcpt, dst, relay, "")
+	g.stat("script.transfer." + ErrClass(res.Codespace, res.Code))
+	g.nftAfterTransfer(c, class, id, g.w.Acct(i, signer).String(), p)
+	return g.track(p, c.ChainName)
+}
+
+// RunForge: a voucher-shaped *native* class. Chain A escrows dog/<id> for a voucher on B; an
+// attacker on B issues the native denom `nft/A/B/dog`, mints <id> in it and sends it "back".
+func (g *TransferGen) RunForge() {
+	w := g.w
+	a, b := 0, 1
+	A, B := g.chain(a), g.chain(b)
+	base := []string{"dog", "cat"}[g.r.Intn(2)]
+	id := []string{"rex", "tom"}[g.r.Intn(2)]
+	if w.NftIssue(A, 0, base, false).Code != 0 {
+		return
+	}
+	g.nftAfterMint(A, base, id, w.NftMint(A, 0, base, id, "uri", w.Acct(a, 1).String()))
+	t := g.nftXfer(a, 1, base, id, w.Acct(b, 1).String(), B.ChainName, "")
+	if t == nil || !g.deliver(t) {
+		return
+	}
+	g.tokenOracles()
+	forged := "nft/" + A.ChainName + "/" + B.ChainName + "/" + base
+	if w.NftIssue(B, 2, forged, false).Code != 0 {
+		return
+	}
+	g.nftAfterMint(B, forged, id, w.NftMint(B, 2, forged, id, "uri", w.Acct(b, 2).String()))
+	t2 := g.nftXfer(b, 2, forged, id, w.Acct(a, 2).String(), A.ChainName, "")
+	if t2 != nil {
+		g.deliver(t2)
+	}
+	g.tokenOracles()
+}
+
+// RunRoundTrip: send a native token of a random class the NFT module accepts along a random
+// route of 1-3 hops (with the relay chain when the topology has one) and return it hop by hop.
+func (g *TransferGen) RunRoundTrip() {
+	w := g.w
+	n := len(w.Chains)
+	cur := g.r.Intn(n)
+	origin := cur
+	class := g.randClass()
+	id := g.randId()
+	C := g.chain(cur)
+	if w.NftIssue(C, 0, class, false).Code != 0 {
+		return
+	}
+	if r := w.NftMint(C, 0, class, id, "uri", w.Acct(cur, 0).String()); r.Code != 0 {
+		return
+	} else {
+		g.nftAfterMint(C, class, id, r)
+	}
+	hops := 1 + g.r.Intn(3)
+	path := []int{cur}
+	local := class
+	for k := 0; k < hops; k++ {
+		next := g.r.Intn(n)
+		for next == cur || (len(path) >= 2 && next == path[len(path)-2]) {
+			next = g.r.Intn(n)
+			if n == 2 {
+				break
+			}
+		}
+		if next == cur {
+			break
+		}
+		relay := ""
+		if g.relay && ((cur == 0 && next == 2) || (cur == 2 && next == 0)) {
+			relay = w.Names[1]
+		}
+		t := g.nftXfer(cur, 0, local, id, w.Acct(next, 0).String(), w.Names[next], relay)
+		if t == nil || !g.deliver(t) {
+			g.tokenOracles()
+			return
+		}
+		// local class of the voucher on the next chain
+		local = g.voucherOn(next, id, w.Acct(next, 0).String())
+		if local == "" {
+			return
+		}
+		cur = next
+		path = append(path, cur)
+		g.tokenOracles()
+	}
+	// and back
+	for k := len(path) - 1; k > 0; k-- {
+		from, to := path[k], path[k-1]
+		relay := ""
+		if g.relay && ((from == 0 && to == 2) || (from == 2 && to == 0)) {
+			relay = w.Names[1]
+		}
+		t := g.nftXfer(from, 0, local, id, w.Acct(to, 0).String(), w.Names[to], relay)
+		if t == nil || !g.deliver(t) {
+			w.hit("C06", fmt.Sprintf("round-trip-return-leg-refused class=%s", class))
+			g.tokenOracles()
+			return
+		}
+		local = g.voucherOn(to, id, w.Acct(to, 0).String())
+		g.tokenOracles()
+	}
+	// final: the receiver on the origin chain holds the original class and id; no voucher left
+	owners := nftOwners(g.chain(origin))
+	if o, ok := owners[pos{w.Names[origin], class, id}]; !ok || o != w.Acct(origin, 0).String() {
+		w.hit("C06", fmt.Sprintf("round-trip-does-not-restore-original class=%s id=%s hops=%d", class, id, len(path)-1))
+	}
+	for _, ch := range w.Chains {
+		for k, o := range nftOwners(ch) {
+			if k.id == id && strings.HasPrefix(k.class, "tibc-") && !w.isModule(o) {
+				if tok, ok := g.led.ident[k]; ok && strings.HasPrefix(tok, w.Names[origin]+":"+class+":"+id+"#") {
+					w.hit("C06", fmt.Sprintf("round-trip-left-a-voucher class=%s on=%s", class, ch.ChainName))
+				}
+			}
+		}
+	}
+}
+
+// voucherOn finds the local class under which `owner` holds token `id` on chain i (the most
+// recently credited one).
+func (g *TransferGen) voucherOn(i int, id, owner string) string {
+	best := ""
+	for k, o := range nftOwners(g.chain(i)) {
+		if k.id == id && o == owner {
+			if _, ok := g.led.ident[k]; ok {
+				best = k.class
+			}
+		}
+	}
+	return best
+}
